@@ -1,5 +1,5 @@
 ---- MODULE MC_q_nxm ----
 EXTENDS MCOFWire
-TheCases == NXEntries \cup NXRegs
+TheCases == NXEntries(0) \cup NXRegs(0)
 TheAround == AroundOne
 ====
